@@ -7,6 +7,7 @@ import (
 	"context"
 	"errors"
 	"fmt"
+	"regexp"
 	"sort"
 	"strconv"
 	"strings"
@@ -26,35 +27,68 @@ type Obj struct {
 	Def    uint64   `json:"def"`
 }
 
-// DB is the state of the fake server; it survives "process restarts".
-type DB struct {
+// Host is the catalogue of one server of the fake cluster.
+type Host struct {
 	Objs   map[string]*Obj
 	Rows   map[[2]string]bool
 	VerTbl bool
 	VdTbl  bool
-	Vers   map[int64]uint64
 }
 
-func NewDB() *DB {
-	return &DB{Objs: map[string]*Obj{}, Rows: map[[2]string]bool{}, Vers: map[int64]uint64{}}
+// DB is the state of the fake cluster (Hosts[0] = the server the process is connected to; it receives every
+// statement, the others only what is sent ON CLUSTER); it survives "process restarts".  Vers is the content
+// of table ver of the connected host (INSERT INTO ver has no ON CLUSTER; ver_dist reads it).
+type DB struct {
+	Hosts []*Host
+	Vers  map[int64]uint64
 }
 
-func (d *DB) Clone() *DB {
-	n := NewDB()
-	for k, o := range d.Objs {
+func newHost() *Host { return &Host{Objs: map[string]*Obj{}, Rows: map[[2]string]bool{}} }
+
+func NewDB(nhosts int) *DB {
+	if nhosts < 1 {
+		nhosts = 1
+	}
+	d := &DB{Vers: map[int64]uint64{}}
+	for i := 0; i < nhosts; i++ {
+		d.Hosts = append(d.Hosts, newHost())
+	}
+	return d
+}
+
+func (h *Host) clone() *Host {
+	n := newHost()
+	for k, o := range h.Objs {
 		c := *o
 		c.Cols = append([]string(nil), o.Cols...)
 		c.Okey = append([]string(nil), o.Okey...)
 		n.Objs[k] = &c
 	}
-	for k := range d.Rows {
+	for k := range h.Rows {
 		n.Rows[k] = true
+	}
+	n.VerTbl, n.VdTbl = h.VerTbl, h.VdTbl
+	return n
+}
+
+func (d *DB) Clone() *DB {
+	n := &DB{Vers: map[int64]uint64{}}
+	for _, h := range d.Hosts {
+		n.Hosts = append(n.Hosts, h.clone())
 	}
 	for k, v := range d.Vers {
 		n.Vers[k] = v
 	}
-	n.VerTbl, n.VdTbl = d.VerTbl, d.VdTbl
 	return n
+}
+
+func (d *DB) allHave(f func(*Host) bool) bool {
+	for _, h := range d.Hosts {
+		if !f(h) {
+			return false
+		}
+	}
+	return true
 }
 
 func mem(s string, l []string) bool {
@@ -81,7 +115,7 @@ func isPrefix(a, b []string) bool {
 var errSem = errors.New("fake clickhouse: statement rejected")
 
 // execStmt = exec_ch: nil when the statement is accepted (effect applied), errSem otherwise (no effect).
-func (d *DB) execStmt(s *Stmt) error {
+func (d *Host) execStmt(s *Stmt) error {
 	has := func(n string) bool { _, ok := d.Objs[n]; return ok }
 	allHave := func(l []string) bool {
 		for _, n := range l {
@@ -215,13 +249,15 @@ type Event struct {
 	K    int64         `json:"k,omitempty"`
 	V    uint64        `json:"v,omitempty"`
 	Stmt []interface{} `json:"stmt,omitempty"` // canonical structure of a script statement
-	R    string        `json:"r"`              // ok | err | fb | fa
+	R    string        `json:"r"`              // ok | err | fb | fa | fp
 	Text string        `json:"text,omitempty"` // first characters of an unrecognised call
 }
 
 type Fault struct {
 	N    int    `json:"n"`
-	Kind string `json:"kind"` // before | after
+	Kind string `json:"kind"` // before | after | partial
+	// kind partial: the statement runs on the hosts whose bit is false (missing bits: false), the caller gets the error
+	Skip []bool `json:"skip,omitempty"`
 	// further failing calls of the same start; only code that carries on after an error ever reaches them
 	Also []Fault `json:"also,omitempty"`
 	// what the failing call returns: "" = a plain error value; "ch:<code>:<name>:<message>" = a ClickHouse
@@ -231,22 +267,22 @@ type Fault struct {
 	DeadFrom int `json:"dead_from,omitempty"`
 }
 
-func (f *Fault) at(n int) (string, error) {
+func (f *Fault) at(n int) (string, error, []bool) {
 	if f == nil {
-		return "", nil
+		return "", nil, nil
 	}
 	if f.N == n {
-		return f.Kind, errorOf(f.Err)
+		return f.Kind, errorOf(f.Err), f.Skip
 	}
 	if f.DeadFrom > 0 && n >= f.DeadFrom {
-		return "before", errInjected
+		return "before", errInjected, nil
 	}
 	for _, g := range f.Also {
 		if g.N == n {
-			return g.Kind, errorOf(g.Err)
+			return g.Kind, errorOf(g.Err), g.Skip
 		}
 	}
-	return "", nil
+	return "", nil, nil
 }
 
 // errorOf builds the error value a failing call returns (see Fault.Err).
@@ -274,34 +310,55 @@ type Conn struct {
 
 var errInjected = errors.New("fake clickhouse: injected failure")
 
-// call runs one database call with the injected outcome of this call number.
-func (c *Conn) call(ev Event, eff func() error) error {
+// call runs one database call with the injected outcome of this call number.  The call goes to every host
+// (cluster = true) or to the connected host only; hosts run it independently: one that accepts it keeps the
+// effect whatever the others do.  The caller sees success only if every targeted host ran and accepted it.
+// whole = true: a call on ver / ver_dist bookkeeping, for which "partial" means "did not happen".
+func (c *Conn) call(ev Event, cluster bool, whole bool, eff func(h *Host) error) error {
 	n := c.calls
 	c.calls++
-	if kind, ferr := c.fault.at(n); kind != "" {
-		if kind == "before" {
-			ev.R = "fb"
-			c.Log = append(c.Log, ev)
-			return ferr
+	kind, ferr, skip := c.fault.at(n)
+	if kind == "before" || (kind == "partial" && whole) {
+		ev.R = "fb"
+		if kind == "partial" {
+			ev.R = "fp"
 		}
-		if err := eff(); err != nil {
-			ev.R = "err"
-			c.Log = append(c.Log, ev)
-			return err
-		}
-		ev.R = "fa"
 		c.Log = append(c.Log, ev)
 		return ferr
 	}
-	if err := eff(); err != nil {
+	targets := c.db.Hosts[:1]
+	if cluster {
+		targets = c.db.Hosts
+	}
+	rejected := false
+	for j, h := range targets {
+		if kind == "partial" && j < len(skip) && skip[j] {
+			continue
+		}
+		if err := eff(h); err != nil {
+			rejected = true
+		}
+	}
+	switch {
+	case kind == "partial":
+		ev.R = "fp"
+		c.Log = append(c.Log, ev)
+		return ferr
+	case rejected:
 		ev.R = "err"
 		c.Log = append(c.Log, ev)
-		return err
+		return errSem
+	case kind == "after":
+		ev.R = "fa"
+		c.Log = append(c.Log, ev)
+		return ferr
 	}
 	ev.R = "ok"
 	c.Log = append(c.Log, ev)
 	return nil
 }
+
+var reHasOnCluster = regexp.MustCompile("(?i)\\bON\\s+CLUSTER\\b")
 
 func short(s string) string {
 	s = normWS(s)
@@ -316,8 +373,8 @@ func (c *Conn) Exec(_ context.Context, query string, args ...any) error {
 		k, ok1 := args[0].(int64)
 		v, ok2 := args[1].(uint64)
 		if ok1 && ok2 {
-			return c.call(Event{T: "iv", K: k, V: v}, func() error {
-				if !c.db.VerTbl {
+			return c.call(Event{T: "iv", K: k, V: v}, false, true, func(h *Host) error {
+				if !h.VerTbl {
 					return errSem
 				}
 				if v > c.db.Vers[k] {
@@ -328,20 +385,21 @@ func (c *Conn) Exec(_ context.Context, query string, args ...any) error {
 		}
 	}
 	if len(args) != 0 {
-		return c.call(Event{T: "o", Text: short(query)}, func() error { return errSem })
+		return c.call(Event{T: "o", Text: short(query)}, false, true, func(*Host) error { return errSem })
 	}
 	st := classify(query, c.ctx)
+	oc := reHasOnCluster.MatchString(query)
 	if st.C == "CreateTable" && st.Ine && (st.Name == "ver" || st.Name == "ver_dist") {
 		if st.Name == "ver" {
-			return c.call(Event{T: "cv"}, func() error { c.db.VerTbl = true; return nil })
+			return c.call(Event{T: "cv"}, oc, true, func(h *Host) error { h.VerTbl = true; return nil })
 		}
-		return c.call(Event{T: "cvd"}, func() error { c.db.VdTbl = true; return nil })
+		return c.call(Event{T: "cvd"}, oc, true, func(h *Host) error { h.VdTbl = true; return nil })
 	}
 	ev := Event{T: "s", Stmt: st.Canon()}
 	if st.C == "Unclassified" {
 		ev.Text = short(query)
 	}
-	return c.call(ev, func() error { return c.db.execStmt(&st) })
+	return c.call(ev, oc, false, func(h *Host) error { return h.execStmt(&st) })
 }
 
 func (c *Conn) Query(_ context.Context, query string, args ...any) (driver.Rows, error) {
@@ -356,8 +414,9 @@ func (c *Conn) Query(_ context.Context, query string, args ...any) (driver.Rows,
 	if tbl != "" && len(args) == 1 {
 		if k, ok := args[0].(int64); ok {
 			var v uint64
-			err := c.call(Event{T: "rd", K: k}, func() error {
-				if !c.db.VerTbl || (tbl == "ver_dist" && !c.db.VdTbl) {
+			err := c.call(Event{T: "rd", K: k}, false, true, func(h *Host) error {
+				// ver_dist reads ver on every host of the cluster
+				if !c.db.allHave(func(x *Host) bool { return x.VerTbl }) || (tbl == "ver_dist" && !h.VdTbl) {
 					return errSem
 				}
 				v = c.db.Vers[k]
@@ -372,13 +431,13 @@ func (c *Conn) Query(_ context.Context, query string, args ...any) (driver.Rows,
 	}
 	if q == "SHOW TABLES" { // Cleanup's helper (unused while its dependency table is empty); harmless read
 		names := []string{}
-		for n := range c.db.Objs {
+		for n := range c.db.Hosts[0].Objs {
 			names = append(names, n)
 		}
 		sort.Strings(names)
 		return &rows{strs: names}, nil
 	}
-	err := c.call(Event{T: "o", Text: short(query)}, func() error { return errSem })
+	err := c.call(Event{T: "o", Text: short(query)}, false, true, func(*Host) error { return errSem })
 	return nil, err
 }
 
@@ -420,39 +479,43 @@ func (r *rows) Err() error                       { return nil }
 func (c *Conn) Contributors() []string                        { return nil }
 func (c *Conn) ServerVersion() (*driver.ServerVersion, error) { return nil, errors.New("unsupported") }
 func (c *Conn) Select(context.Context, any, string, ...any) error {
-	return c.call(Event{T: "o", Text: "Select"}, func() error { return errSem })
+	return c.call(Event{T: "o", Text: "Select"}, false, true, func(*Host) error { return errSem })
 }
 func (c *Conn) QueryRow(context.Context, string, ...any) driver.Row { return nil }
 func (c *Conn) PrepareBatch(context.Context, string, ...driver.PrepareBatchOption) (driver.Batch, error) {
-	return nil, c.call(Event{T: "o", Text: "PrepareBatch"}, func() error { return errSem })
+	return nil, c.call(Event{T: "o", Text: "PrepareBatch"}, false, true, func(*Host) error { return errSem })
 }
 func (c *Conn) AsyncInsert(context.Context, string, bool, ...any) error {
-	return c.call(Event{T: "o", Text: "AsyncInsert"}, func() error { return errSem })
+	return c.call(Event{T: "o", Text: "AsyncInsert"}, false, true, func(*Host) error { return errSem })
 }
 func (c *Conn) Ping(context.Context) error { return nil }
 func (c *Conn) Stats() driver.Stats        { return driver.Stats{} }
 func (c *Conn) Close() error               { return nil }
 
 // ---------------------------------------------------------------- final state
+type HostFinal struct {
+	Objs []*Obj      `json:"objs"`
+	Rows [][2]string `json:"rows"`
+}
+
 type Final struct {
-	Objs   []*Obj            `json:"objs"`
-	Rows   [][2]string       `json:"rows"`
-	VerTbl bool              `json:"ver_tbl"`
-	VdTbl  bool              `json:"vd_tbl"`
+	Hosts  []HostFinal       `json:"hosts"`
+	VerTbl bool              `json:"ver_tbl"` // ver exists on every host
+	VdTbl  bool              `json:"vd_tbl"`  // ver_dist exists on every host
 	Vers   map[string]uint64 `json:"vers"`
 }
 
-func (d *DB) Final() Final {
-	f := Final{VerTbl: d.VerTbl, VdTbl: d.VdTbl, Vers: map[string]uint64{}, Objs: []*Obj{}, Rows: [][2]string{}}
+func (h *Host) final() HostFinal {
+	f := HostFinal{Objs: []*Obj{}, Rows: [][2]string{}}
 	names := []string{}
-	for n := range d.Objs {
+	for n := range h.Objs {
 		names = append(names, n)
 	}
 	sort.Strings(names)
 	for _, n := range names {
-		f.Objs = append(f.Objs, d.Objs[n])
+		f.Objs = append(f.Objs, h.Objs[n])
 	}
-	for k := range d.Rows {
+	for k := range h.Rows {
 		f.Rows = append(f.Rows, k)
 	}
 	sort.Slice(f.Rows, func(i, j int) bool {
@@ -461,6 +524,16 @@ func (d *DB) Final() Final {
 		}
 		return f.Rows[i][1] < f.Rows[j][1]
 	})
+	return f
+}
+
+func (d *DB) Final() Final {
+	f := Final{Vers: map[string]uint64{}}
+	f.VerTbl = d.allHave(func(h *Host) bool { return h.VerTbl })
+	f.VdTbl = d.allHave(func(h *Host) bool { return h.VdTbl })
+	for _, h := range d.Hosts {
+		f.Hosts = append(f.Hosts, h.final())
+	}
 	for k, v := range d.Vers {
 		if v != 0 {
 			f.Vers[fmt.Sprint(k)] = v
